@@ -76,10 +76,17 @@ impl Uci {
                 .load_position(kind, moves)
                 .map_err(|err| format!("Failed to load position: {err}"))?,
             UCICommand::Go { limits } => {
-                if let Some(jh) = &self.join_handle {
-                    if !jh.is_finished() {
+                if let Some(jh) = self.join_handle.take() {
+                    let winding_down = self
+                        .search_running
+                        .as_ref()
+                        .is_some_and(|r| !r.load(std::sync::atomic::Ordering::Relaxed));
+                    if !jh.is_finished() && !winding_down {
+                        self.join_handle = Some(jh);
                         return Err("Search is already running".to_string());
                     }
+                    // The previous search has answered (or was stopped): wait for its thread to exit
+                    let _ = jh.join();
                 }
                 self.go(limits);
             }
